@@ -16,3 +16,44 @@ try:
         pass
 except ImportError:
     pass
+
+
+def structural():
+    """the resolver keeps no state: its methods touch `self` only to call each other (AST scan), so what is selected for
+    one command line cannot depend on the lines resolved before"""
+    import ast
+    from pyvc import frontend
+    P = frontend.Program()
+    out = []
+    for mod, cname in ((rc.M_DEF, "DefaultResolver"),):
+        mi = P.module(mod)
+        ci = mi.classes.get(cname)
+        bad = []
+        if ci is None:
+            bad.append("class %s missing" % cname)
+        else:
+            methods = set(ci.methods)
+            for m, fn in ci.methods.items():
+                for n in ast.walk(fn):
+                    if isinstance(n, ast.Attribute) and isinstance(n.value, ast.Name) and n.value.id == "self":
+                        if n.attr not in methods:
+                            bad.append("%s reads or writes self.%s (line %d)" % (m, n.attr, n.lineno))
+                    elif isinstance(n, ast.Name) and n.id == "self":
+                        pass
+                # `self` handed to something other than an attribute access (vars(self), setattr(self, ...), a call)
+                for n in ast.walk(fn):
+                    if isinstance(n, ast.Call):
+                        for a in list(n.args) + [k.value for k in n.keywords]:
+                            if isinstance(a, ast.Name) and a.id == "self":
+                                bad.append("%s passes self to %s (line %d)" % (m, ast.unparse(n.func), n.lineno))
+                for n in ast.walk(fn):
+                    if isinstance(n, (ast.Global, ast.Nonlocal)):
+                        bad.append("%s declares %s (line %d)" % (m, ", ".join(n.names), n.lineno))
+        out.append({
+            "name": "C03.%s.frame.stateless" % cname, "kind": "frame",
+            "text": "the methods of %s use `self` only to call one another: no attribute of the resolver object is read or "
+                    "written, `self` is handed to nothing, no global is declared" % cname,
+            "status": "proved" if not bad else "failed",
+            "note": "; ".join(bad[:6]),
+        })
+    return out
